@@ -331,6 +331,75 @@ def gen_c05(rng, n, prefix="d"):
         ch = chunkings(rng, data)
         yield "L2 %s%d isz=104 strict=0 %s ops=%s" % (prefix, i, " ".join(toks), ",".join(["W" + c.hex() for c in ch] + ["E"]))
 
+ENC_CODECS = ["big5", "euc_jp", "euc_kr", "gb18030", "gbk", "cp866", "iso8859_2", "iso8859_3", "iso8859_4", "iso8859_5", "iso8859_6", "iso8859_7", "iso8859_8",
+    "iso8859_8", "iso8859_10", "iso8859_13", "iso8859_14", "iso8859_15", "iso8859_16", "koi8_r", "koi8_u", "mac_roman", "shift_jis", "utf_8", "cp874", "cp1250", "cp1251",
+    "cp1252", "cp1253", "cp1254", "cp1255", "cp1256", "cp1257", "cp1258", "mac_cyrillic", None]
+ENC_LABELS = ["big5", "euc-jp", "euc-kr", "gb18030", "gbk", "ibm866", "iso-8859-2", "iso-8859-3", "iso-8859-4", "iso-8859-5", "iso-8859-6", "iso-8859-7", "iso-8859-8",
+    "iso-8859-8-i", "iso-8859-10", "iso-8859-13", "iso-8859-14", "iso-8859-15", "iso-8859-16", "koi8-r", "koi8-u", "macintosh", "shift_jis", "utf-8", "windows-874",
+    "windows-1250", "windows-1251", "windows-1252", "windows-1253", "windows-1254", "windows-1255", "windows-1256", "windows-1257", "windows-1258", "x-mac-cyrillic", "x-user-defined"]
+SAMPLES = ["\u6f22\u5b57\u30c6\u30b9\u30c8\u65e5\u672c\u8a9e", "\ud55c\uad6d\uc5b4 \ud14c\uc2a4\ud2b8", "\u4e2d\u6587\u6d4b\u8bd5\u7e41\u9ad4", "\u041f\u0440\u0438\u0432\u0435\u0442 \u044e\u044f \u044f\u044e \u043c\u0438\u0440",
+    "caf\u00e9 \u00f1\u00fc \u00ef\u00bb\u00bf \u00ff\u00fe \u00fe\u00ff \u0153\u20ac", "\u03b1\u03b2\u03b3 \u03b4\u03ad\u03bb\u03c4\u03b1", "\u05e9\u05dc\u05d5\u05dd \u05e2\u05d5\u05dc\u05dd", "\u0645\u0631\u062d\u0628\u0627", "\u0e2a\u0e27\u0e31\u0e2a\u0e14\u0e35",
+    "\ufeffbom", "\U0001f600 emoji \U00010348", "z\u00fcrich \u017e\u0161\u010d \u0142\u00f3d\u017a", "\u20ac\u201c\u201d\u2026"]
+def enc_text(rng, idx, long=False):
+    """bytes for a text run in encoding idx: valid characters where python has the codec, raw high bytes, malformed / truncated sequences, BOM look-alikes"""
+    out = b""
+    codec = ENC_CODECS[idx]
+    for _ in range(rng.randrange(1, 5) + (60 if long else 0)):
+        c = rng.randrange(20)
+        if c < 9 and codec:
+            out += rng.choice(SAMPLES).encode(codec, errors="ignore")
+        elif c < 12:
+            out += bytes(rng.randrange(0x80, 0x100) for _ in range(rng.randrange(1, 5)))
+        elif c < 14:
+            out += rng.choice([b"\xef\xbb\xbf", b"\xff\xfe", b"\xfe\xff", b"\xe4\xb8", b"\xf0\x9f\x98", b"\xc3", b"\x81", b"\x8e", b"\xa1", b"\xed\xa0\x80", b"\xc0\xaf", b"\xf8\x88\x80\x80\x80"])
+        else:
+            out += rng.choice([b"plain ascii ", b"x", b"&amp;", b"1 > 0 ", b"words and more words ", b"\n"])
+    return out
+def gen_enc(rng, n, prefix="e"):
+    for i in range(n):
+        idx = rng.randrange(36) if rng.randrange(4) else 23
+        meta = 1 if rng.randrange(4) == 0 else 0
+        cur = idx
+        parts = []
+        if rng.randrange(3) == 0: parts.append(rng.choice([b"\xef\xbb\xbf", b"\xff\xfe", b"\xfe\xff"]) + enc_text(rng, cur))        # text node starting with BOM look-alike bytes
+        for _ in range(rng.randrange(2, 9)):
+            c = rng.randrange(20)
+            if c < 6: parts.append(enc_text(rng, cur, long=(rng.randrange(8) == 0)))
+            elif c < 7: parts.append(b"long ascii text " * rng.randrange(60, 90) + (enc_text(rng, cur) if rng.randrange(2) else b""))
+            elif c < 11:
+                t = rng.choice([b"p", b"div", b"span", b"a", b"b"]); v = enc_text(rng, cur).replace(b'"', b"").replace(b">", b"")
+                parts.append(b"<" + t + b' title="' + v + b'" ' + rng.choice([b"", b"x=y", b"data-" + bytes(rng.randrange(0x80, 0x100) for _ in range(2)) + b"=1"]) + b">")
+            elif c < 13: parts.append(b"</" + rng.choice([b"p", b"div", b"span", b"a"]) + b">")
+            elif c < 15: parts.append(b"<!--" + enc_text(rng, cur).replace(b"--", b"-").replace(b">", b"") + b"-->")
+            elif c < 16: parts.append(b"<" + rng.choice([b"my-\xc3\xa9l", b"x\xe4\xb8\xad", b"t\xff"]) + b">")
+            elif c < 17: parts.append(rng.choice([b"<script>", b"<style>", b"<title>"]) + enc_text(rng, cur).replace(b"<", b"") + rng.choice([b"</script>", b"</style>", b"</title>"]))
+            elif c < 19 and meta:
+                new = rng.randrange(36)
+                parts.append(b"<meta " + rng.choice([b"charset=", b'CHARSET="', b"charset='"]) + rng.choice([ENC_LABELS[new].encode(), ENC_LABELS[new].upper().encode(), b"bogus", b"utf-16", b"iso-2022-jp"]))
+                q = parts[-1].split(b"=", 1)[1][:1]
+                parts[-1] += (q if q in (b'"', b"'") else b"") + b">"
+                if ENC_LABELS[new].encode() in parts[-1].lower() and cur == idx: cur = new
+            else: parts.append(b"<br>")
+        data = b"".join(parts)
+        ins = rng.choice(["-", "-", hx("<i>\u00e9\u4e2d\u044f\U0001f600</i>"), hx("caf\u00e9"), hx("\u20ac&")])
+        ch = chunkings(rng, data)
+        yield "L3 %s%d nomodel=1 enc=%d meta=%d ins=%s ops=%s" % (prefix, i, idx, meta, ins, ",".join(["W" + c.hex() for c in ch] + ["E"]))
+
+def gen_td(rng, n, prefix="t"):
+    """text-only UTF-8 documents (no '<'): valid multi-byte characters, malformed and truncated sequences, long runs, every kind of split"""
+    for i in range(n):
+        data = b""
+        for _ in range(rng.randrange(1, 6)):
+            c = rng.randrange(20)
+            if c < 7: data += rng.choice(SAMPLES).encode("utf-8")
+            elif c < 10: data += bytes(rng.randrange(0x80, 0x100) for _ in range(rng.randrange(1, 4)))
+            elif c < 13: data += rng.choice([b"\xef\xbb\xbf", b"\xe4\xb8", b"\xf0\x9f\x98", b"\xc3", b"\xed\xa0\x80", b"\xc0\xaf", b"\xf4\x90\x80\x80", b"\xe0\x80\x80", b"\xf8\x88\x80\x80\x80", b"\xf0\x9f", b"\xc2\xc2\xa9"])
+            elif c < 15: data += b"ascii text &amp; more " * rng.choice([1, 1, 3, 60, 120])
+            elif c < 16: data += ("\u4e2d\u6587" * rng.choice([10, 200, 400])).encode("utf-8")
+            else: data += rng.choice([b"x", b"plain", b"\n", b" > "])
+        ch = chunkings(rng, data)
+        yield "TD %s%d ops=%s" % (prefix, i, ",".join(["W" + c.hex() for c in ch] + ["E"]))
+
 def gen_l2(rng, n, profile, prefix):
     isz = int(open('/verif/build/itemsize.txt').read().strip()) if __import__('os').path.exists('/verif/build/itemsize.txt') else 104
     for i in range(n):
@@ -472,6 +541,10 @@ def main():
         for l in gen_mem(rng, max(1, n // 10)): print(l)
     elif fam == "c05":
         for l in gen_c05(rng, n): print(l)
+    elif fam == "td":
+        for l in gen_td(rng, n): print(l)
+    elif fam == "enc":
+        for l in gen_enc(rng, n): print(l)
     elif fam == "c04":
         for l in gen_c04(rng, n): print(l)
     elif fam == "l1fail":
